@@ -11,7 +11,7 @@ from collections import Counter
 from ..gen.ledger import Opts, gen_ledger
 from ..model import dsl
 from ..probe import probe
-from ..util import rng_for, sha
+from ..util import cap_viols, rng_for, sha
 from . import ledger_core as lc
 
 PROP = "C13"
@@ -122,7 +122,7 @@ def run_enum(desc):
         if d:
             viols.append({"clause": "variant-parsed-differently", "signature": "variant-parsed-differently",
                           "detail": f"{repr(text)[:120]}: {d[:3]}", "case": case})
-    return {"evaluations": len(cases), "nontrivial_hashes": hashes, "counters": cnt, "violations": viols[:30],
+    return {"evaluations": len(cases), "nontrivial_hashes": hashes, "counters": cnt, "violations": cap_viols(viols),
             "samples": [{"text": meta[0][0], "expected": meta[0][1]}] if meta else []}
 
 
@@ -160,7 +160,7 @@ def run_variants(desc):
                           "detail": "; ".join(d[:3]), "case": case})
         elif len(samples) < 2 and len(exp) <= 4:
             samples.append({"text": text, "parsed_transactions": len(ob["ok"])})
-    return {"evaluations": len(reqs), "nontrivial_hashes": hashes, "counters": cnt, "violations": viols[:30], "samples": samples}
+    return {"evaluations": len(reqs), "nontrivial_hashes": hashes, "counters": cnt, "violations": cap_viols(viols), "samples": samples}
 
 
 _invalid = None
@@ -215,7 +215,7 @@ def run_corrupt(desc):
                           "detail": e["message"][:200], "case": case})
         elif len(samples) < 2:
             samples.append({"corruption": d, "line": line, "text": text, "error": e["message"][:200]})
-    return {"evaluations": len(reqs), "nontrivial_hashes": hashes, "counters": cnt, "violations": viols[:30], "samples": samples}
+    return {"evaluations": len(reqs), "nontrivial_hashes": hashes, "counters": cnt, "violations": cap_viols(viols), "samples": samples}
 
 
 def run_multi(parts):
@@ -300,7 +300,7 @@ def run_cli(desc):
                 viols.append({"clause": "cli-corrupt-accepted", "signature": "cli-corrupt-accepted",
                               "detail": f"exit {r2['exit']} stdout {len(r2['stdout'])} bytes for {c[2]}", "case": {"op": "parse", "text": c[0]}})
     return {"evaluations": cnt["cli_parse_runs"] + cnt["cli_corrupt_runs"], "nontrivial_hashes": hashes, "counters": cnt,
-            "violations": viols[:20], "samples": []}
+            "violations": cap_viols(viols), "samples": []}
 
 
 def run_shard(desc):
